@@ -143,6 +143,14 @@ def FlatOut.close (body : FlatOut) (kind : Kind) (arity : Nat) (data : NodeData)
 
 def leafOut (x : PyObj) : FlatOut := ⟨[x], [Node.leaf], false⟩
 
+/-- sequence the children's results, then append the parent's node record -/
+def closeSeq (rs : List (Except Err FlatOut)) (kind : Kind) (arity : Nat) (data : NodeData)
+    (entries : Option (List Key)) (custom : Option Reg) (okeys : Option (List Key)) :
+    Except Err FlatOut :=
+  match seqOuts rs with
+  | .error e => .error e
+  | .ok b => .ok (b.close kind arity data entries custom okeys false)
+
 /-- order in which a dict-kind node's items are visited -/
 def dictOrder {α : Type} (isOrderedDict sorted : Bool) (items : List (Key × α)) : List (Key × α) :=
   if !isOrderedDict && sorted then totalOrderSortOn (·.1) items else items
@@ -184,54 +192,32 @@ def flattenGo (cfg : Cfg) (sorted : Bool) (d : Nat) (x : PyObj) : Except Err Fla
         if cfg.noneIsLeaf then .ok (leafOut x)
         else .ok (FlatOut.empty.close .none 0 .none Option.none Option.none Option.none false)
     | .tuple xs =>
-        match seqOuts (flattenList cfg sorted (d + 1) xs) with
-        | .error e => .error e
-        | .ok b => .ok (b.close .tuple xs.length .none Option.none Option.none Option.none false)
+        closeSeq (flattenList cfg sorted (d + 1) xs) .tuple xs.length .none Option.none Option.none Option.none
     | .list xs =>
-        match seqOuts (flattenList cfg sorted (d + 1) xs) with
-        | .error e => .error e
-        | .ok b => .ok (b.close .list xs.length .none Option.none Option.none Option.none false)
+        closeSeq (flattenList cfg sorted (d + 1) xs) .list xs.length .none Option.none Option.none Option.none
     | .dict kvs =>
         let items := dictOrder false sorted (flattenKVs cfg sorted (d + 1) kvs)
-        match seqOuts (items.map (·.2)) with
-        | .error e => .error e
-        | .ok b => .ok (b.close .dict kvs.length (.keys (items.map (·.1))) Option.none Option.none
-                          (some (kvs.map (·.1))) false)
+        closeSeq (items.map (·.2)) .dict kvs.length (.keys (items.map (·.1))) Option.none Option.none (some (kvs.map (·.1)))
     | .odict kvs =>
         let items := flattenKVs cfg sorted (d + 1) kvs
-        match seqOuts (items.map (·.2)) with
-        | .error e => .error e
-        | .ok b => .ok (b.close .ordereddict kvs.length (.keys (items.map (·.1))) Option.none
-                          Option.none Option.none false)
+        closeSeq (items.map (·.2)) .ordereddict kvs.length (.keys (items.map (·.1))) Option.none Option.none Option.none
     | .ddict f kvs =>
         let items := dictOrder false sorted (flattenKVs cfg sorted (d + 1) kvs)
-        match seqOuts (items.map (·.2)) with
-        | .error e => .error e
-        | .ok b => .ok (b.close .defaultdict kvs.length (.ddict f (items.map (·.1))) Option.none
-                          Option.none (some (kvs.map (·.1))) false)
+        closeSeq (items.map (·.2)) .defaultdict kvs.length (.ddict f (items.map (·.1))) Option.none Option.none (some (kvs.map (·.1)))
     | .deque m xs =>
-        match seqOuts (flattenList cfg sorted (d + 1) xs) with
-        | .error e => .error e
-        | .ok b => .ok (b.close .deque xs.length (.maxlen m) Option.none Option.none Option.none
-                          false)
+        closeSeq (flattenList cfg sorted (d + 1) xs) .deque xs.length (.maxlen m) Option.none Option.none Option.none
     | .ntuple cls xs =>
         match cfg.reg.lookup cfg.ns 1 cls with
         | some reg =>
             customFlatten reg (customOutOf reg Option.none .ok xs) (flattenList cfg sorted (d + 1) xs)
         | Option.none =>
-          match seqOuts (flattenList cfg sorted (d + 1) xs) with
-          | .error e => .error e
-          | .ok b => .ok (b.close .namedtuple xs.length (.cls cls) Option.none Option.none
-                            Option.none false)
+          closeSeq (flattenList cfg sorted (d + 1) xs) .namedtuple xs.length (.cls cls) Option.none Option.none Option.none
     | .sseq cls xs =>
         match cfg.reg.lookup cfg.ns 2 cls with
         | some reg =>
             customFlatten reg (customOutOf reg Option.none .ok xs) (flattenList cfg sorted (d + 1) xs)
         | Option.none =>
-          match seqOuts (flattenList cfg sorted (d + 1) xs) with
-          | .error e => .error e
-          | .ok b => .ok (b.close .structseq xs.length (.cls cls) Option.none Option.none
-                            Option.none false)
+          closeSeq (flattenList cfg sorted (d + 1) xs) .structseq xs.length (.cls cls) Option.none Option.none Option.none
     | .user cls md quirk children =>
         match cfg.reg.lookup cfg.ns 0 cls with
         | some reg =>
@@ -295,6 +281,13 @@ def FlatOutP.close (body : FlatOutP) (kind : Kind) (arity : Nat) (data : NodeDat
 
 def leafOutP (path : List Key) (x : PyObj) : FlatOutP := ⟨[(path, x)], [Node.leaf], false⟩
 
+def closeSeqP (rs : List (Except Err FlatOutP)) (kind : Kind) (arity : Nat) (data : NodeData)
+    (entries : Option (List Key)) (custom : Option Reg) (okeys : Option (List Key)) :
+    Except Err FlatOutP :=
+  match seqOutsP rs with
+  | .error e => .error e
+  | .ok b => .ok (b.close kind arity data entries custom okeys false)
+
 def intEntries (n : Nat) : List Key := (List.range n).map fun (i : Nat) => Key.int (i : Int)
 
 /-- `FlattenIntoWithPathImpl`'s Custom case.  `rsInt` are the child results under integer entries,
@@ -340,36 +333,20 @@ def flattenGoP (cfg : Cfg) (sorted : Bool) (d : Nat) (path : List Key) (x : PyOb
         if cfg.noneIsLeaf then .ok (leafOutP path x)
         else .ok (FlatOutP.empty.close .none 0 .none Option.none Option.none Option.none false)
     | .tuple xs =>
-        match seqOutsP (flattenListP cfg sorted (d + 1) path 0 xs) with
-        | .error e => .error e
-        | .ok b => .ok (b.close .tuple xs.length .none Option.none Option.none Option.none false)
+        closeSeqP (flattenListP cfg sorted (d + 1) path 0 xs) .tuple xs.length .none Option.none Option.none Option.none
     | .list xs =>
-        match seqOutsP (flattenListP cfg sorted (d + 1) path 0 xs) with
-        | .error e => .error e
-        | .ok b => .ok (b.close .list xs.length .none Option.none Option.none Option.none false)
+        closeSeqP (flattenListP cfg sorted (d + 1) path 0 xs) .list xs.length .none Option.none Option.none Option.none
     | .dict kvs =>
         let items := dictOrder false sorted (flattenKVsP cfg sorted (d + 1) path kvs)
-        match seqOutsP (items.map (·.2)) with
-        | .error e => .error e
-        | .ok b => .ok (b.close .dict kvs.length (.keys (items.map (·.1))) Option.none Option.none
-                          (some (kvs.map (·.1))) false)
+        closeSeqP (items.map (·.2)) .dict kvs.length (.keys (items.map (·.1))) Option.none Option.none (some (kvs.map (·.1)))
     | .odict kvs =>
         let items := flattenKVsP cfg sorted (d + 1) path kvs
-        match seqOutsP (items.map (·.2)) with
-        | .error e => .error e
-        | .ok b => .ok (b.close .ordereddict kvs.length (.keys (items.map (·.1))) Option.none
-                          Option.none Option.none false)
+        closeSeqP (items.map (·.2)) .ordereddict kvs.length (.keys (items.map (·.1))) Option.none Option.none Option.none
     | .ddict f kvs =>
         let items := dictOrder false sorted (flattenKVsP cfg sorted (d + 1) path kvs)
-        match seqOutsP (items.map (·.2)) with
-        | .error e => .error e
-        | .ok b => .ok (b.close .defaultdict kvs.length (.ddict f (items.map (·.1))) Option.none
-                          Option.none (some (kvs.map (·.1))) false)
+        closeSeqP (items.map (·.2)) .defaultdict kvs.length (.ddict f (items.map (·.1))) Option.none Option.none (some (kvs.map (·.1)))
     | .deque m xs =>
-        match seqOutsP (flattenListP cfg sorted (d + 1) path 0 xs) with
-        | .error e => .error e
-        | .ok b => .ok (b.close .deque xs.length (.maxlen m) Option.none Option.none Option.none
-                          false)
+        closeSeqP (flattenListP cfg sorted (d + 1) path 0 xs) .deque xs.length (.maxlen m) Option.none Option.none Option.none
     | .ntuple cls xs =>
         match cfg.reg.lookup cfg.ns 1 cls with
         | some reg =>
@@ -377,10 +354,7 @@ def flattenGoP (cfg : Cfg) (sorted : Bool) (d : Nat) (path : List Key) (x : PyOb
               (flattenListP cfg sorted (d + 1) path 0 xs)
               (fun ks => flattenListE cfg sorted (d + 1) path ks xs) xs.length
         | Option.none =>
-          match seqOutsP (flattenListP cfg sorted (d + 1) path 0 xs) with
-          | .error e => .error e
-          | .ok b => .ok (b.close .namedtuple xs.length (.cls cls) Option.none Option.none
-                            Option.none false)
+          closeSeqP (flattenListP cfg sorted (d + 1) path 0 xs) .namedtuple xs.length (.cls cls) Option.none Option.none Option.none
     | .sseq cls xs =>
         match cfg.reg.lookup cfg.ns 2 cls with
         | some reg =>
@@ -388,10 +362,7 @@ def flattenGoP (cfg : Cfg) (sorted : Bool) (d : Nat) (path : List Key) (x : PyOb
               (flattenListP cfg sorted (d + 1) path 0 xs)
               (fun ks => flattenListE cfg sorted (d + 1) path ks xs) xs.length
         | Option.none =>
-          match seqOutsP (flattenListP cfg sorted (d + 1) path 0 xs) with
-          | .error e => .error e
-          | .ok b => .ok (b.close .structseq xs.length (.cls cls) Option.none Option.none
-                            Option.none false)
+          closeSeqP (flattenListP cfg sorted (d + 1) path 0 xs) .structseq xs.length (.cls cls) Option.none Option.none Option.none
     | .user cls md quirk children =>
         match cfg.reg.lookup cfg.ns 0 cls with
         | some reg =>
